@@ -234,7 +234,34 @@ func runC03(e *env) {
 		n := 1 + r.intn(3)
 		c03EmitLaws(e, c03Receiver(r, n), c03Receiver(r, n), c03Receiver(r, n))
 	}
+	c03Handover(e)
 	runC03P(e, r)
+}
+
+// c03Handover replays, merge by merge, the witnesses of PC03.merge_diverges_on_token_handover (a token
+// handed over at disjoint times) and PC03.merge_diverges_on_token_clash on the real code: the same three
+// updates folded in two orders from the empty descriptor. Correspondence lines only (the inputs clash,
+// so token lists are outside the per-merge judge); the two end states are the `st` fields of the third
+// and sixth line of each group. No PRNG draws.
+func c03Handover(e *env) {
+	one := func(id string, ts int64, toks ...uint32) *ring.Desc {
+		d := ring.NewDesc()
+		d.Ingesters[id] = ring.InstanceDesc{Id: id, Timestamp: ts, State: ring.ACTIVE, Tokens: toks}
+		return d
+	}
+	fold := func(ups ...*ring.Desc) {
+		s := ring.NewDesc()
+		for _, u := range ups {
+			c03EmitMerge(e, s, u, false, 0)
+			s = c03State(s, u)
+		}
+	}
+	a1, a2, b3 := one("a", 1, 7), one("a", 2), one("b", 3, 7)
+	fold(a1, a2, b3)
+	fold(a1, b3, a2)
+	b2, a3 := one("b", 2, 7), one("a", 3)
+	fold(a1, b2, a3)
+	fold(a1, a3, b2)
 }
 
 // ---------- partition ring ----------
